@@ -39,7 +39,7 @@ def count_obligations(unit, mode):
     return names
 
 
-def conclude(pid, spec, results, tier, seed, wall, kani=()):
+def conclude(pid, spec, results, tier, seed, wall, kani=(), extra_viol=()):
     known = findings.load()
     undecided = []
     violations = []
@@ -152,6 +152,14 @@ def conclude(pid, spec, results, tier, seed, wall, kani=()):
                     continue
                 violations.append((r, d, key))
                 failed_obl.add('%s [%s] %s' % (fn, r.mode, key.get('clause') or 'safety'))
+    for fn, w in extra_viol:
+        import runner as _runner
+        d = _runner.Diag()
+        d.message = 'bounded sanity run found a failing input on the real crate'
+        d.fn = fn
+        d.rendered = d.message
+        r0 = results[0]
+        violations.append((r0, d, {'fn': fn, 'kind': 'sanity-run', 'clause': None, 'expr': '', 'witness': w}))
     # --- Kani steps
     kani_obl = []
     kani_viol = []
